@@ -45,18 +45,20 @@ def module_constants(rel):
 def find_function(tree, qualname):
   """qualname: 'Class.method', 'func', 'outer.<locals>.inner'."""
   parts = [p for p in qualname.split('.') if p != '<locals>']
-  node = tree
-  for p in parts:
-    found = None
-    for child in ast.walk(node) if node is not tree else ast.iter_child_nodes(node):
-      if isinstance(child, (ast.FunctionDef, ast.ClassDef, ast.AsyncFunctionDef)) and child.name == p \
-          and child is not node:
-        found = child
-        break
-    if found is None:
-      return None
-    node = found
-  return node if isinstance(node, (ast.FunctionDef,)) else None
+  def search(node, rest):
+    if not rest:
+      return node if isinstance(node, ast.FunctionDef) else None
+    cands = [child for child in (ast.walk(node) if node is not tree else ast.iter_child_nodes(node))
+             if isinstance(child, (ast.FunctionDef, ast.ClassDef, ast.AsyncFunctionDef))
+             and child.name == rest[0] and child is not node]
+    # a name may be defined several times (typing.overload stubs before the real definition): the
+    # later definitions win at run time, and only the real one contains the nested function
+    for cand in reversed(cands):
+      hit = search(cand, rest[1:])
+      if hit is not None:
+        return hit
+    return None
+  return search(tree, parts)
 
 
 def segment_hash(rel, node):
